@@ -107,7 +107,7 @@ var TemplateNames = []string{
 	"leading-lookahead", "bumpalong-loop", "loop-then-x", "loop-ending-loop-body", "alt-shared-prefix",
 	"alt-shared-set-prefix", "atomic-alternation", "nested-atomic", "lookbehind-loop", "conditional-loop",
 	"wide-literal", "negated-first-set", "counted-group-loop", "lazy-loop-then-x", "alt-with-empty",
-	"start-anchor-G", "backref-after-loop", "lookaround-conditional", "alt-counted-set-prefix", "loop-then-optional-group", "group-loop-overlapping-head",
+	"start-anchor-G", "backref-after-loop", "lookaround-conditional", "alt-counted-set-prefix", "loop-then-optional-group", "group-loop-overlapping-head", "long-literal", "lookbehind-group-loop", "landmark-overlap",
 }
 
 // Template builds template number k with random leaves.
@@ -240,6 +240,47 @@ func (t *T) Template(k int) *Node {
 		}
 		q := [][2]int{{2, 2}, {2, 3}, {1, 2}, {2, -1}, {3, 3}, {1, -1}}[t.R.Intn(6)]
 		return Cat(t.tail(), Rep(grp, q[0], q[1]), []*Node{L(t.l()), S(t.word(2)), Anch("$"), &Node{K: KEmpty}}[t.R.Intn(4)])
+	case "long-literal":
+		// longer than the 50-rune Boyer-Moore prefix cap
+		n := 45 + t.R.Intn(30)
+		var w []rune
+		for i := 0; i < n; i++ {
+			w = append(w, rune('a'+(i*7+t.R.Intn(3))%26))
+		}
+		if t.R.Intn(3) == 0 {
+			w[t.R.Intn(len(w))] = t.l()
+		}
+		return Cat(t.tail(), S(string(w)), t.tail())
+	case "lookbehind-group-loop":
+		// a repeated group with inner loops inside a look-behind (its body runs right to left)
+		a, b := t.l(), t.l()
+		body := []*Node{
+			Cat(Rep(L(b), 0, -1), S(string([]rune{a, b}))),
+			Cat(S(string([]rune{a, b})), Rep(L(a), 0, -1)),
+			Cat(Rep(L(a), 1, -1), t.set(), Rep(L(b), 0, 1)),
+		}[t.R.Intn(3)]
+		q := [][2]int{{2, 2}, {1, 2}, {2, 3}, {1, -1}}[t.R.Intn(4)]
+		return Cat(t.tail(), Look(false, t.R.Intn(4) == 0, Rep(NC(body), q[0], q[1])), []*Node{Anch("$"), t.unit(), &Node{K: KEmpty}, Anch(`\b`)}[t.R.Intn(4)])
+	case "landmark-overlap":
+		// leading unbounded set loop, then required landmarks (counted sets and literals) that overlap
+		// each other, with optional gaps
+		a, b := t.l(), t.l()
+		lead := []*Node{Esc("d"), Esc("w"), Cls(false, CR(t.l()), CR(t.l())), Cls(true, CR(a))}[t.R.Intn(4)]
+		n := Cat(Rep(lead, t.R.Intn(2), -1))
+		for i := 0; i < 2+t.R.Intn(2); i++ {
+			switch t.R.Intn(4) {
+			case 0:
+				n.Kids = append(n.Kids, Rep(Cls(false, CR(a), CR(b)), 1, 1+t.R.Intn(3)))
+			case 1:
+				n.Kids = append(n.Kids, S(string([]rune{[]rune{a, b}[t.R.Intn(2)]})))
+			case 2:
+				n.Kids = append(n.Kids, S(t.word(1+t.R.Intn(2))))
+			case 3:
+				n.Kids = append(n.Kids, Rep(Esc("s"), 0, -1), Rep(Cls(false, CR(a), CR(t.l())), 1+t.R.Intn(2), 2+t.R.Intn(2)))
+			}
+		}
+		n.Kids = append(n.Kids, L([]rune{a, b}[t.R.Intn(2)]))
+		return n
 	case "lookaround-conditional":
 		return Cat(&Node{K: KCondExpr, Kids: []*Node{Look(t.R.Intn(2) == 0, t.R.Intn(2) == 0, Cat(t.unit(), t.loop(t.unit()))), Cat(t.unit(), t.loop(t.unit())), Cat(t.loop(t.unit()), t.unit())}}, t.tail())
 	}
